@@ -19,6 +19,9 @@ def snap(o):
     """A bit-exact snapshot of a caller-owned object."""
     if isinstance(o, np.ndarray):
         return ("nd", o.shape, str(o.dtype), o.tobytes())
+    if isinstance(o, da.Array):
+        # a caller-owned lazy collection: what it evaluates to
+        return ("dask", snap(np.asarray(o.compute(scheduler="synchronous"))))
     if isinstance(o, GMMStats):
         return ("stats", int(o.t), float(o.log_likelihood), snap(np.asarray(o.n)), snap(np.asarray(o.sum_px)), snap(np.asarray(o.sum_pxx)))
     if isinstance(o, GMMMachine):
@@ -204,6 +207,11 @@ def run(chk):
             guarded("%s.fit_using_array" % kind.upper(), {"X": Xa, "y": ya, "ubm": ubm},
                     lambda: fa.make_machine(kind, ubm, 1, 1, em_iterations=1, random_state=1).fit_using_array(Xa, ya),
                     lambda o: [np.asarray(o.U)], twice=False)
+            # the same from a Dask array with the labels as the caller's (unsorted) NumPy array: labels, array and the collection's value untouched
+            Xad = da.from_array(Xa, chunks=((1, 3), (3,), (2,)))
+            guarded("%s.fit_using_array[dask]" % kind.upper(), {"X (dask collection)": Xad, "X": Xa, "y": ya, "ubm": ubm},
+                    lambda: fa.make_machine(kind, ubm, 1, 1, em_iterations=1, random_state=1).fit_using_array(Xad, ya),
+                    lambda o: [np.asarray(o.U)], twice=(rd % 2 == 0))
             # a UBM that was untrained when the machine was constructed but has been trained by the caller since: fit_using_array leaves it alone
             late_ubm = GMMMachine(n_gaussians=2, max_fitting_steps=2, convergence_threshold=None, update_variances=True,
                                   k_means_trainer=KMeansMachine(2, init_method=np.asarray(ubm.means).copy(), max_iter=1))
@@ -250,6 +258,11 @@ def run(chk):
         yw = np.array([0, 1, 2] * 4)
         guarded("Whitening.fit/transform", {"X": Xw}, lambda: (lambda t: (t, t.transform(Xw)))(Whitening().fit(Xw)), lambda o: [np.asarray(o[0].weights), np.asarray(o[1])])
         guarded("WCCN.fit/transform", {"X": Xw, "y": yw}, lambda: (lambda t: (t, t.transform(Xw)))(WCCN().fit(Xw, yw)), lambda o: [np.asarray(o[0].weights)])
+        Xwd = da.from_array(Xw, chunks=((5, 7), (2,)))
+        guarded("Whitening.fit/transform[dask]", {"X (dask collection)": Xwd, "X": Xw},
+                lambda: (lambda t: (t, np.asarray(t.transform(Xwd))))(Whitening().fit(Xwd)), lambda o: [np.asarray(o[0].weights)])
+        guarded("WCCN.fit/transform[dask]", {"X (dask collection)": Xwd, "X": Xw, "y": yw},
+                lambda: (lambda t: (t, np.asarray(t.transform(Xwd))))(WCCN().fit(Xwd, yw)), lambda o: [np.asarray(o[0].weights)])
         if rd < 2:
             chk.sample({"round": rd, "entry_points": "fit, fit_using_array, enroll, score, transform, project, acc_stats, linear_scoring, +, +="})
     chk.notes["correspondence"] = "the effect programs of coq/Proofs/Heap.v are tied to the source by the in-place sites generated from /repo/src (see generated_facts)"
